@@ -47,7 +47,9 @@ class SRows(Model):
         if name not in self.cols:
             from .engine import PyRaise
             raise PyRaise('KeyError', name)
-        return SRowSeries(self, self.cols[name], self.kinds.get(name, 'float'))
+        out = SRowSeries(self, self.cols[name], self.kinds.get(name, 'float'))
+        out.column_of = name          # a column handed out by the frame: whether an in-place operator writes through is pandas-version lore
+        return out
 
     def sym_getattr(self, ctx, name):
         if name in self.cols:
